@@ -192,6 +192,17 @@ _k("call-of-group-after-infix", "eval", "error", "unexpected-value", ".word 7 - 
 _k("immediate-in-group-after-infix", "eval", "error", "unexpected-value", ".word 7 * \t(«#5»)")
 _k("division-by-zero-nested-after-infix", "eval", "error", "arithmetic-error", "mov #1 + \t(2 + \t«(3 - 3) / 0»), r0",
    note="two levels of groups, each after an infix operator and a tab")
+# the culprit is a NON-FIRST operator of a chain of prefix operators: its token starts at that operator,
+# not at the first operator of the chain (parser.expression re-saves ctx_op after every prefix operator)
+_k("immediate-after-minus", "eval", "error", "unexpected-value", ".word (-«#5»)")
+_k("immediate-after-minus-and-blanks", "eval", "error", "unexpected-value", ".word (- \t «#5»)")
+_k("deferred-after-hash-typo", "eval", "error", "unexpected-value", "mov #«@5», r0",
+   note="'#@x' typed for '@#x': '@x' cannot be a value")
+_k("deferred-after-hash-and-tab", "eval", "error", "unexpected-value", "mov #\t«@5», r0")
+_k("register-number-after-complement", "eval", "error", "unexpected-value", ".word (~ «%3»)")
+_k("register-number-after-complement-tight", "eval", "error", "unexpected-value", ".word 1 + (~«%3»)")
+_k("immediate-third-in-prefix-chain", "eval", "error", "unexpected-value", ".word (- ~\t«#5»)")
+_k("immediate-after-minus-in-byte", "eval", "error", "unexpected-value", ".byte 1, (-«#5»)")
 _k("register-as-value", "eval", "error", "unexpected-register", ".word «r1»")
 _k("autoincrement-as-value", "eval", "error", "unexpected-value", ".word (1)«+»",
    note="postfix operator tokens span the operator only (parser.expression: operator(ctx_op, ctx_op_end, ...))")
